@@ -1,9 +1,10 @@
 (* Corr/C07.v — correspondence glue: runs Model/Registry.v on an operation sequence that the Go harness drove
    through the real SessionManager/ClientRegistry and compares the projected state after EVERY operation.
-   case value:  [ variant(0 = Pinned, 1 = Current) ; [maxConn; maxCtl; tmo] ; [ [code; a; b; c; d] ... ] ; [ VL [VN ..] flat_obs ... ] ]
-   flat_obs  =  err n |sess| sess.. |reg| (c cid auth stale).. |idx| (x c).. |closed| closed.. |tun| (c t).. |tmap| (t c)..
+   case value:  [ variant(0 = Pinned, 1 = Current) ; [maxConn; maxCtl; tmo] ; [ [code; a; b; c; d; at+1; jcode; ja; jb; jc; jd] ... ] ;
+                 (at+1 = 0: plain operation; otherwise operation j runs at interleaving point `at` of the host operation) [ VL [VN ..] flat_obs ... ] ]
+   flat_obs  =  err n fired |sess| sess.. |reg| (c cid auth stale).. |idx| (x c).. |closed| closed.. |tun| (c t).. |tmap| (t c)..
                 total control tunnel |la| la..      (every collection sorted by its first component) *)
-From TX Require Import Base.Val Model.Registry.
+From TX Require Import Base.Val Model.Registry Model.RegistryMicro.
 Open Scope N_scope.
 
 Fixpoint insert_by {A} (key : A -> N) (x : A) (l : list A) : list A :=
@@ -16,7 +17,8 @@ Definition sort_by {A} (key : A -> N) (l : list A) : list A := fold_right (inser
 Definition lenN {A} (l : list A) : N := N.of_nat (length l).
 Definition b2n (b : bool) : N := if b then 1 else 0.
 
-Definition flat_state (k : cfg) (sr : st * res) : list N :=
+Definition flat_state (k : cfg) (srf : st * res * bool) : list N :=
+  let sr := fst srf in
   let s := fst sr in
   let sessL := sort_by (fun x => x) (sess s) in
   let regL := sort_by fst (reg s) in
@@ -25,7 +27,7 @@ Definition flat_state (k : cfg) (sr : st * res) : list N :=
   let tunL := sort_by fst (tun s) in
   let tmapL := sort_by fst (tmap s) in
   let laL := map fst (filter (fun e => c_auth (snd e)) regL) in
-  [b2n (fst (snd sr)); snd (snd sr)]
+  [b2n (fst (snd sr)); snd (snd sr); b2n (snd srf)]
   ++ lenN sessL :: sessL
   ++ lenN regL :: flat_map (fun e => [fst e; c_cid (snd e); b2n (c_auth (snd e)); b2n (is_stale k s (snd e))]) regL
   ++ lenN idxL :: flat_map (fun e => [fst e; snd e]) idxL
@@ -35,9 +37,9 @@ Definition flat_state (k : cfg) (sr : st * res) : list N :=
   ++ [lenN (sess s); size (reg s); size (tun s)]
   ++ lenN laL :: laL.
 
-Definition dec_op (v : tval) : op :=
-  let a := vn (vnth 1 v) in let b := vn (vnth 2 v) in let c := vn (vnth 3 v) in let d := vn (vnth 4 v) in
-  match vn (vnth 0 v) with
+Definition dec_op_at (off : nat) (v : tval) : op :=
+  let a := vn (vnth (off + 1) v) in let b := vn (vnth (off + 2) v) in let c := vn (vnth (off + 3) v) in let d := vn (vnth (off + 4) v) in
+  match vn (vnth off v) with
   | 0 => Accept a
   | 1 => Handshake a b c (negb (d =? 0))
   | 2 => Heartbeat a
@@ -53,13 +55,16 @@ Definition dec_op (v : tval) : op :=
   | 12 => BreakWrites a
   | _ => Tick 0
   end.
+Definition dec_op (v : tval) : op := dec_op_at 0 v.
+Definition dec_inj (v : tval) : option (N * op) :=
+  let a := vn (vnth 5 v) in if a =? 0 then None else Some (a - 1, dec_op_at 6 v).
 
 Definition dec_variant (v : tval) : variant := if vn v =? 0 then Pinned else Current.
 Definition dec_cfg (v : tval) : cfg := {| maxConn := vn (vnth 0 v); maxCtl := vn (vnth 1 v); hbTimeout := vn (vnth 2 v) |}.
 
 Definition model_obs (v : tval) : list (list N) :=
   let k := dec_cfg (vnth 1 v) in
-  map (flat_state k) (trace (dec_variant (vnth 0 v)) k init (map dec_op (vl (vnth 2 v)))).
+  map (flat_state k) (trace_inj (dec_variant (vnth 0 v)) k init (map (fun o => (dec_op o, dec_inj o)) (vl (vnth 2 v)))).
 
 (* the first |obs| steps are compared (the driver truncates a Pinned-tree sequence after the recorded defect shows) *)
 Definition check (v : tval) : bool :=
